@@ -25,6 +25,11 @@ use crate::{
     replica::{err_class, Replica, Txn, View},
 };
 
+thread_local! {
+    /// property whose clause the step being executed belongs to (for panics)
+    static PHASE: std::cell::RefCell<(&'static str, usize)> = const { std::cell::RefCell::new(("C08", 0)) };
+}
+
 struct Fail {
     key: String,
     msg: String,
@@ -264,6 +269,17 @@ fn run_beh(beh: &Value, args: &Args, notes: &mut Vec<String>) -> Result<(u64, us
         let op = st.s("op");
         let r = st.u("r");
         audit::take_log();
+        PHASE.with(|p| {
+            *p.borrow_mut() = (
+                match op {
+                    "action" | "action_fail" => "C07",
+                    "poison" => "C06",
+                    "bad" => "C10",
+                    _ => "C08",
+                },
+                si,
+            )
+        });
         match op {
             "action" => {
                 for m in st.a("merges") {
@@ -515,7 +531,10 @@ pub fn run(args: &Args) {
                 }
                 out.fail(i, fl.step as i64, &fl.key, &fl.msg, Value::Null)
             }
-            Err(p) => out.fail(i, -1, "C08:panic", &format!("runtime panicked: {p}"), Value::Null),
+            Err(p) => {
+                let (prop, si) = PHASE.with(|x| *x.borrow());
+                out.fail(i, si as i64, &format!("{prop}:panic"), &format!("runtime panicked at step {si}: {p}"), Value::Null)
+            }
         }
     }
     out.finish();
